@@ -533,10 +533,14 @@ class Recorder:
                 elif op in ('find_slices', 'find_groups', 'find_layers'):
                     if self.desc.get('poison'):
                         poison_global()
+                    if self.desc.get('gedit'):
+                        apply_global_prms(self.desc['gedit'])     # someone edits the global dictionary after the construction
                     getattr(self.chunk, op)()
                 elif op == 'metarize':
                     self.chunk.metarize(which=arg)
                 elif op == 'metar_msg':
+                    if self.desc.get('gedit'):
+                        apply_global_prms(self.desc['gedit'])
                     msg = self.chunk.metar_msg(which=arg)
                     if not isinstance(msg, str):
                         res, exc, msg = 'exc', 'NotAString:' + type(msg).__name__, None
